@@ -59,6 +59,9 @@ impl<M: Matcher> Replacer<M> {
         // See the giant comment in 'find_iter_at_in_context' below for why we
         // do this dance.
         let is_multi_line = searcher.multi_line_with_matcher(&matcher);
+        // The line terminator cut off below. It is put back, as it was, after
+        // the replacement.
+        let mut line_term: &[u8] = &[];
         if is_multi_line {
             if haystack[range.end..].len() >= MAX_LOOK_AHEAD {
                 haystack = &haystack[..range.end + MAX_LOOK_AHEAD];
@@ -70,6 +73,7 @@ impl<M: Matcher> Replacer<M> {
             // because of it.
             let mut m = Match::new(0, range.end);
             trim_line_terminator(searcher, haystack, &mut m);
+            line_term = &haystack[m.end()..range.end];
             haystack = &haystack[..m.end()];
         }
         {
@@ -101,6 +105,7 @@ impl<M: Matcher> Replacer<M> {
                 },
             )
             .map_err(io::Error::error_message)?;
+            dst.extend(line_term);
         }
         Ok(())
     }
